@@ -98,7 +98,7 @@ def run_unit(name, repo=None, seed=None, rlimit=60, extra_tag="", canary=False, 
     # trusted functions' ensures are assumptions, not obligations
     trusted_fns = {f["fn"] for f in info["functions"] if f["mode"] != "verify"}
     for o in r.obligations:
-        o["assumed"] = o["fn"] in trusted_fns
+        o["assumed"] = (o["fn"] in trusted_fns) and o["kind"] != "structural"
     cmd = ["verus", path, "--output-json", "--time", "--rlimit", str(rlimit), "--multiple-errors", "20"]
     if seed is not None:
         cmd += ["--smt-option", "smt.random_seed=%d" % seed]
